@@ -824,6 +824,10 @@ def on_crash(ctx, crash):
     import traceback
     exc = crash.exc
     tb = "".join(traceback.format_exception(type(exc), exc, exc.__traceback__)) if exc else ""
+    if "is not valid" in str(exc) and "Pulse_ms" in str(exc):
+        # the coil's default_pulse_ms template evaluated to a negative number and the driver refused it (C08's
+        # business, and the right thing to do): the generated case is outside C16's space
+        return "discard"
     if "placeholder_manager" in tb:
         info = ctx.info.get("last_raise") or ""
         root = exc
